@@ -116,8 +116,17 @@ Definition uuid_to_string (u : str) : outcome str :=
   do b <- lg_set b 23 45;
   Ok b.
 
-(* ---------- hostport (pattern.go:303-310) ---------- *)
+(* ---------- hostport (pattern.go:288-299) ---------- *)
 Definition hostport (s : str) : outcome (str * str) :=
+  match s with
+  | [] => Ok ([], [])
+  | _ => match last_index_byte s 58 with
+         | None => Ok (s, [])                  (* no port (since bb1b4e7) *)
+         | Some n => do h <- lg_upto s n; do p <- lg_from s (n + 1); Ok (h, p)
+         end
+  end.
+(* before bb1b4e7: n = -1 went straight into s[:n]; kept for the refutation theorem only *)
+Definition hostport_unrepaired (s : str) : outcome (str * str) :=
   match s with
   | [] => Ok ([], [])
   | _ => match last_index_byte s 58 with
@@ -132,17 +141,19 @@ Definition hostport (s : str) : outcome (str * str) :=
    ... are those of the proleptic Gregorian calendar at unix + offset; this is
    the days-to-civil computation of the standard library (checked against
    time.Time's own methods on every generated event by the harness). *)
-Definition civil_of_days (z0 : Z) : Z * Z * Z :=
-  let z := (z0 + 719468)%Z in
-  let era := (z / 146097)%Z in
-  let doe := (z - era * 146097)%Z in
+(* year-of-era 0, month, day of a day-of-era in [0, 146097) *)
+Definition civil_of_doe (doe : Z) : Z * Z * Z :=
   let yoe := ((doe - doe / 1460 + doe / 36524 - doe / 146096) / 365)%Z in
-  let y := (yoe + era * 400)%Z in
   let doy := (doe - (365 * yoe + yoe / 4 - yoe / 100))%Z in
   let mp := ((5 * doy + 2) / 153)%Z in
   let d := (doy - (153 * mp + 2) / 5 + 1)%Z in
   let m := (if mp <? 10 then mp + 3 else mp - 9)%Z in
-  ((if m <=? 2 then y + 1 else y)%Z, m, d).
+  ((if m <=? 2 then yoe + 1 else yoe)%Z, m, d).
+Definition civil_of_days (z0 : Z) : Z * Z * Z :=
+  let z := (z0 + 719468)%Z in
+  let era := (z / 146097)%Z in
+  let '(y, m, d) := civil_of_doe (z mod 146097) in
+  ((y + era * 400)%Z, m, d).
 
 Record civil := { c_year : Z; c_month : Z; c_day : Z; c_hour : Z; c_min : Z; c_sec : Z }.
 Definition civil_of (secs : Z) : civil :=
@@ -169,7 +180,10 @@ Record event := {
   e_upurl : option urlinfo }.
 
 Definition e_unixnano (e : event) : Z := wrap64 (e_unix e * 1000000000 + e_nsec e).
-Definition e_civil (e : event) : civil := civil_of (e_unix e + e_off e).
+(* t := e.End.UTC() (since 1da7601): the civil fields of the instant itself *)
+Definition e_civil (e : event) : civil := civil_of (e_unix e).
+(* before 1da7601: Year(), Hour() ... of End in its own location; refutation theorem only *)
+Definition e_civil_unrepaired (e : event) : civil := civil_of (e_unix e + e_off e).
 
 (* ---------- the field table (pattern.go:41-282) ---------- *)
 Inductive fld :=
@@ -213,7 +227,8 @@ Definition rfc3339_prefix (c : civil) : list (outcome str) :=
   [atoi (c_year c) 4; lit [45]; atoi (c_month c) 2; lit [45]; atoi (c_day c) 2; lit [84];
    atoi (c_hour c) 2; lit [58]; atoi (c_min c) 2; lit [58]; atoi (c_sec c) 2].
 
-Definition render_field (f : fld) (e : event) : outcome str :=
+Definition render_field_with (hostport : str -> outcome (str * str)) (e_civil : event -> civil)
+           (f : fld) (e : event) : outcome str :=
   match f with
   | FRemoteAddr => with_req e (fun r => Ok (rq_remote r))
   | FRemoteHost => with_req e (fun r => do '(h, _) <- hostport (rq_remote r); Ok h)
@@ -251,6 +266,10 @@ Definition render_field (f : fld) (e : event) : outcome str :=
   | FUpReqURL => with_url (e_upurl e) u_string
   | FUpService => Ok (e_upsvc e)
   end.
+
+Definition render_field : fld -> event -> outcome str := render_field_with hostport e_civil.
+Definition render_field_unrepaired : fld -> event -> outcome str :=
+  render_field_with hostport_unrepaired e_civil_unrepaired.
 
 Definition field_names : list (str * fld) :=
   [ (bs "$remote_addr", FRemoteAddr); (bs "$remote_host", FRemoteHost); (bs "$remote_port", FRemotePort);
@@ -349,7 +368,7 @@ Definition new_logger (format : str) : outcome (list item) :=
   match p with [] => Err 2 | _ => Ok p end.
 
 (* ---------- pattern.write and Logger.Log ---------- *)
-Definition render_item (it : item) (e : event) : outcome str :=
+Definition render_item_with (rf : fld -> event -> outcome str) (it : item) (e : event) : outcome str :=
   match it with
   | IText s => Ok s
   | IHeader name =>
@@ -357,22 +376,29 @@ Definition render_item (it : item) (e : event) : outcome str :=
       | None => Ok []
       | Some r => match rq_header r with None => Ok [] | Some h => Ok (header_get h name) end
       end
-  | IField f => render_field f e
+  | IField f => rf f e
   end.
 
-Fixpoint write_items (p : list item) (e : event) : outcome str :=
+Fixpoint write_items_with (rf : fld -> event -> outcome str) (p : list item) (e : event) : outcome str :=
   match p with
   | [] => Ok []
-  | it :: r => do a <- render_item it e; do b <- write_items r e; Ok (a ++ b)
+  | it :: r => do a <- render_item_with rf it e; do b <- write_items_with rf r e; Ok (a ++ b)
   end.
 
 (* the bytes handed to the single w.Write call of Logger.Log *)
-Definition pattern_write (p : list item) (e : event) : outcome str :=
-  do b <- write_items p e;
+Definition pattern_write_with rf (p : list item) (e : event) : outcome str :=
+  do b <- write_items_with rf p e;
   Ok (match b with [] => [] | _ => b ++ [10] end).
 
-Definition log_line (format : str) (e : event) : outcome str :=
-  do p <- new_logger format; pattern_write p e.
+Definition log_line_with rf (format : str) (e : event) : outcome str :=
+  do p <- new_logger format; pattern_write_with rf p e.
+
+Definition render_item := render_item_with render_field.
+Definition write_items := write_items_with render_field.
+Definition pattern_write := pattern_write_with render_field.
+Definition log_line := log_line_with render_field.
+(* the logger as it was before 1da7601 / bb1b4e7 *)
+Definition log_line_unrepaired := log_line_with render_field_unrepaired.
 
 (* ====================== specification side ====================== *)
 
@@ -424,22 +450,12 @@ Scheme Equality for fld.
 Definition uses (p : list item) (fs : list fld) : bool :=
   existsb (fun it => match it with IField f => existsb (fld_beq f) fs | _ => false end) p.
 
-(* "" or something with a ':' in it: what hostport can split *)
-Definition addr_ok (s : str) : bool := match s with [] => true | _ => has_colon s end.
 Definition remote_of (e : event) : str := match e_req e with Some r => rq_remote r | None => [] end.
-
-(* region 1 (F-C20-1): a host/port field over a non-empty address without ':' *)
-Definition region_noport (p : list item) (e : event) : bool :=
-  (uses p [FUpHost; FUpPort] && negb (addr_ok (e_upaddr e)))
-  || (uses p [FRemoteHost; FRemotePort] && negb (addr_ok (remote_of e))).
-
-(* region 2 (F-C20-2): a civil-time field of an event whose End is not in UTC *)
 Definition time_fields : list fld := [FTimeCommon; FTimeRfc; FTimeRfcMs; FTimeRfcUs; FTimeRfcNs].
-Definition region_localtime (p : list item) (e : event) : bool :=
-  uses p time_fields && negb (e_off e =? 0)%Z.
 
 (* region 3 (F-C20-3): a host field over a bracketed IPv6 literal "[...]:port" *)
 Definition bracketed (s : str) : bool :=
+  has_colon s &&
   match hostport s with
   | Ok (h, _) => has_prefix h [91] && has_suffix h [93]
   | _ => false
@@ -449,3 +465,16 @@ Definition region_brackets (p : list item) (e : event) : bool :=
 
 (* what every theorem about a rendered event assumes of the numbers in it *)
 Definition int64_ok (z : Z) : bool := (min_int64 <? z)%Z && (z <=? max_int64)%Z.
+(* an HTTP log event whose numbers are what time.Time / net/http can produce: the
+   instant is one UnixNano can represent, the nanosecond is one, and a Response
+   is present.  Nothing is asked of the addresses, the zone or the headers. *)
+Definition event_ok (e : event) : bool :=
+  int64_ok (e_dur e)
+  && (-9000000000 <=? e_unix e)%Z && (e_unix e <=? 9000000000)%Z
+  && (0 <=? e_nsec e)%Z && (e_nsec e <? 1000000000)%Z
+  && match e_resp e with Some (st, cl) => int64_ok st && int64_ok cl | None => false end.
+(* the same event as seen from another zone *)
+Definition in_zone (e : event) (off : Z) : event :=
+  {| e_dur := e_dur e; e_unix := e_unix e; e_nsec := e_nsec e; e_off := off; e_req := e_req e;
+     e_resp := e_resp e; e_requrl := e_requrl e; e_upaddr := e_upaddr e; e_upsvc := e_upsvc e;
+     e_upurl := e_upurl e |}.
